@@ -36,16 +36,19 @@ Inductive ty :=
 | TUnion (ts : list ty)                         (* UnionType(type_list) *)
 | TGen (k : kind) (c : cid) (ps : list ty)      (* GenericType(base_type, parameters) *)
 | TTup (k : kind) (c : cid) (ps : list ty)      (* TupleType(base_type, parameters) *)
-| TCall (k : kind) (c : cid) (ps : list ty).    (* CallableType(base_type, args + [ret]) *)
+| TCall (k : kind) (c : cid) (ps : list ty)     (* CallableType(base_type, args + [ret]) *)
+(* TypeParameter(name, constraints, bound, default=None, scope): name id [n], scope id [sc] (0 = None);
+   [ps] = the child types in one list: the bound first when [hb], then the constraints *)
+| TVar (n : nat) (sc : nat) (hb : bool) (ps : list ty).
 
 (* pytd.Parameter: name (0 = "self", 1 = "cls"), type, kind, optional, mutated_type *)
 Record param := mkParam {
   p_name : nat; p_ty : ty; p_kind : nat; p_opt : bool; p_mut : option ty }.
 
-(* pytd.Signature (template is always empty in the modelled fragment) *)
+(* pytd.Signature; [s_template]: the TypeParameter of each TemplateItem (last field, as in pytd.py) *)
 Record sig := mkSig {
   s_params : list param; s_star : option param; s_starstar : option param;
-  s_ret : ty; s_exc : list ty }.
+  s_ret : ty; s_exc : list ty; s_template : list ty }.
 
 (* pytd.Function: kind 0 METHOD, 1 STATICMETHOD, 2 CLASSMETHOD, 3 PROPERTY *)
 Record func := mkFunc { f_name : nat; f_kind : nat; f_sigs : list sig }.
@@ -54,7 +57,8 @@ Record const := mkConst { k_name : nat; k_ty : ty }.
 
 (* pytd.Class: bases are plain class references *)
 Record class := mkClass {
-  cl_name : cid; cl_bases : list (kind * cid); cl_methods : list func; cl_consts : list const }.
+  cl_name : cid; cl_bases : list (kind * cid); cl_methods : list func; cl_consts : list const;
+  cl_template : list ty }.
 
 (* pytd.TypeDeclUnit *)
 Record unit_ := mkUnit { u_consts : list const; u_classes : list class; u_funcs : list func }.
